@@ -23,6 +23,7 @@ func CheckC16(sc Scenario, rec *Rec) error {
 	distinct := sc.Fit.Kind == "distinct" || sc.Fit.Kind == "stagnating"
 	lineages := 0
 	return runScenario(sc, epochHooks{
+		turnoverMustSucceed: true,
 		built: func(pop *genetics.Population, _ *neat.Options) error {
 			anc = ancestorsOf(pop)
 			tr = newC02Tracker(pop)
